@@ -14,6 +14,7 @@ import ast
 
 from ..astutil import calls_in, call_name, where
 from ..cfg import build_cfg
+from ..dataflow import def_value, reaching_defs
 from ..logic import known, entails, reach_avoiding
 from ..model import AnalysisError, unparse, walk_no_nested
 from ..symtext import Expander, strip_order_keeping, effect_calls
@@ -151,7 +152,8 @@ def run(prog, rep):
         ok_v = v is not None and in_loop(n) and x.text(v, n) == sec_t
         rep.check(ok_v, "TRAV-2", "itersections yields the dequeued section", x.text(v, n) if v is not None else "None",
                   "itersections yields `%s`, not the dequeued section" % (x.text(v, n) if v is not None else None), where(f, n.ast))
-        good = known(g, n, cl, lambda a: a["FILTER"] and (not a["LVL0"] or a["YSELF"]), ["FILTER", "LVL0", "YSELF"], with_node=True)
+        good = known(g, n, cl, lambda a: a["FILTER"], ["FILTER"], with_node=True) and \
+            known(g, n, cl, lambda a: not a["LVL0"] or a["YSELF"], ["LVL0", "YSELF"], with_node=True)
         rep.check(good, "TRAV-2", "yield only under the filter and the yield_self rule", "filter_func(sec) and (level != 0 or yield_self)",
                   "a section can be yielded although the filter rejects it, or the start section although yield_self is off", where(f, n.ast),
                   witness="sec.itersections(yield_self=False) yields sec / a filtered section")
@@ -455,12 +457,21 @@ def _found_objects_rule(rep, f, rule, relation_flags):
                 if tt in ("%s.parent is None" % me, "%s._parent is None" % me):
                     return "N"
                 return None
-            good = known(g, n, cls, lambda a: a["S"] and not a["N"], ["S", "N"], with_node=True)
+            good = known(g, n, cls, lambda a: a["S"], ["S"], with_node=True) and known(g, n, cls, lambda a: not a["N"], ["N"], with_node=True)
             rep.check(good, rule, "%s: %s siblings" % (f.name, how), "under `siblings` and a parent",
                       "%s hands out siblings although `siblings` is not known to be requested (or without a parent)" % f.name, where(f, n.ast),
                       witness="find_related(siblings=False) returns a sibling")
-        elif relation_flags and (t.endswith(".parent") or t.endswith("._parent")):
+        elif relation_flags and (t.endswith(".parent") or t.endswith("._parent") or _ancestor_local(g, n, t, me)):
             good = flag_known("parents") and match_known(t)
+            if good and "." not in t:
+                # a loop carried local: the match test must be about the value that is handed out
+                def same_value(lf, br, t=t):
+                    tt = x.text(lf, br)
+                    if (tt.startswith("%s._matches(%s, " % (me, t)) or tt == "%s._matches(%s)" % (me, t)) \
+                            and reaching_defs(g, br, t) == reaching_defs(g, n, t):
+                        return "M"
+                    return None
+                good = known(g, n, same_value, lambda a: a["M"], ["M"], with_node=True)
             rep.check(good, rule, "%s: %s ancestor" % (f.name, how), "under `parents` and _matches",
                       "%s hands out an ancestor although `parents` is not known to be requested (or without a match)" % f.name, where(f, n.ast),
                       witness="find_related(parents=False) returns an ancestor")
@@ -470,6 +481,38 @@ def _found_objects_rule(rep, f, rule, relation_flags):
     rep.check(len(loops) == 1, rule, "%s inspects the own children" % f.name, "one loop over self._sections", "%s does not loop over its own child sections" % f.name, f.where)
     finals = [n for n in g.nodes if n.kind == "return" and n.ast.value is not None and _only_acc(n.ast.value, acc)]
     rep.check(bool(finals) or not acc, rule, "%s returns the collected matches" % f.name, "ok", "%s collects matches but never returns them" % f.name, f.where)
+
+
+def _ancestor_local(g, n, name, me, depth=0):
+    """every definition of the local `name` reaching n is `<me or such a local>.parent`: the value is a proper ancestor of
+    <me> (or None at the root)"""
+    if not name.isidentifier() or depth > 3:
+        return False
+    ds = reaching_defs(g, n, name)
+    if not ds:
+        return False
+    for d in ds:
+        if d.kind == "entry":
+            return False
+        v = def_value(d, name)
+        if not (isinstance(v, ast.Attribute) and v.attr in ("parent", "_parent") and isinstance(v.value, ast.Name)):
+            return False
+        if v.value.id == me:
+            continue
+        if v.value.id == name:
+            # x = x.parent: the previous value must be <me> or an ancestor itself
+            for d2 in reaching_defs(g, d, name):
+                v2 = def_value(d2, name) if d2.kind != "entry" else None
+                if isinstance(v2, ast.Name) and v2.id == me:
+                    continue
+                if isinstance(v2, ast.Attribute) and v2.attr in ("parent", "_parent") and isinstance(v2.value, ast.Name) \
+                        and v2.value.id in (me, name):
+                    continue
+                return False
+            continue
+        if not _ancestor_local(g, d, v.value.id, me, depth + 1):
+            return False
+    return True
 
 
 def _produced(c, x, n):
@@ -550,7 +593,8 @@ def exact_name_match(prog, rep, rule="PATH-2"):
     if mt is None:
         raise AnalysisError("Sectionable._matches vanished")
     rep.saw_function(mt)
-    obj, key = mt.params[1], mt.params[2]
+    off = 1 if mt.has_self else 0     # _matches may be a staticmethod
+    obj, key = mt.params[off], mt.params[off + 1]
     x = Expander(mt, inline=prog)
     cmps = []
     for n in ast.walk(mt.node):
